@@ -182,7 +182,17 @@ def dst3(a):
     return dst(np.asarray(a, dtype=float), type=3)
 
 
+WORST_COND = [1.0]     # largest condition number inverted during the current native spec run (read by pyvc.replay)
+
+
 def matinv(a):
+    try:
+        c = float(np.max(np.linalg.cond(a)))
+        if c != c:
+            c = float('inf')
+    except Exception:
+        c = float('inf')
+    WORST_COND[0] = max(WORST_COND[0], c)
     return np.linalg.inv(a)
 
 
